@@ -83,6 +83,44 @@ func checkC11(c *Ctx, r *Report) {
 	r.Rule("R11c", "no store into an expression / dynamic-value / path / metadata object outside the function that constructs it (these objects are shared between a source and its copies and between concurrent readers)", 10)
 	immutableStoresRule(c, r, "R11c")
 	capturedConfigRule(c, r)
+	globalStateRule(c, r)
+}
+
+// globalStateRule (R11e): the library keeps no process-wide mutable state besides its atomic
+// sequence counter. A package-level variable whose address is handed to code outside the repository
+// (sync.Map.Store, a mutex, append through a pointer ...) is shared by all configs, all option sets
+// and all goroutines: a memo keyed too coarsely makes one call's result depend on an earlier call.
+func globalStateRule(c *Ctx, r *Report) {
+	r.Rule("R11e", "no package-level variable is handed by address to code outside the repository, except to sync/atomic (process-wide mutable state: caches, memos, registries)", 1)
+	globalStateRuleAs(c, r, "R11e")
+}
+
+func globalStateRuleAs(c *Ctx, r *Report, rule string) {
+	n := 0
+	for _, fn := range c.SrcFuncs() {
+		if !c.InRepo(fn) || strings.HasSuffix(fn.Name(), "init") && fn.Parent() == nil && strings.HasPrefix(fn.Name(), "init") {
+			continue
+		}
+		for _, ci := range CallsIn(fn, false) {
+			g := ci.Common().StaticCallee()
+			if g == nil || c.InRepo(g) || BuiltinName(ci) != "" {
+				continue
+			}
+			for _, a := range ci.Common().Args {
+				gl, ok := a.(*ssa.Global)
+				if !ok || gl.Pkg == nil || !strings.HasPrefix(gl.Pkg.Pkg.Path(), modPath) {
+					continue
+				}
+				n++
+				atomicOK := g.Pkg != nil && g.Pkg.Pkg.Path() == "sync/atomic"
+				r.Check(atomicOK, rule, c.FnName(fn), "global "+gl.Name()+" passed to "+g.String(), c.Pos(ci.Pos()), "atomic counter update",
+					"the package-level variable "+gl.Name()+" is handed to "+g.String()+": process-wide mutable state shared by every config, option set and goroutine (a memo or cache there makes a call depend on earlier calls with other options)")
+			}
+		}
+	}
+	if n == 0 {
+		r.Trivial(rule, "ucfg", "package-level state", "-", "no package-level variable is passed by address to library code")
+	}
 }
 
 // capturedConfigRule (R11d): a *Config found in the unpack target may be the very child of the
